@@ -464,6 +464,23 @@ func check(t interface {
 			sv.Feed("</stream:stream>")
 		}
 		silentDeadline := deadlineSet && inputTerminated == ""
+		if inputTerminated == "peererror" && !dead {
+			// the peer has reported a stream error and now waits (it neither
+			// closes its stream nor the connection): Serve returns on account of
+			// the error, it does not wait for anything more from this peer
+			if !sv.Wait(5 * time.Second) {
+				if sv.Conn.PendingInput() == 0 && wire.ServeIdle() {
+					time.Sleep(300 * time.Millisecond)
+					if sv.Conn.PendingInput() == 0 && wire.ServeIdle() {
+						select {
+						case <-sv.Done():
+						default:
+							fail("the peer's stream error (%s) was delivered 5 s ago and nothing follows it (the peer keeps the connection open and says nothing more), but Serve has not returned: it is waiting for more input", firstErrCond)
+						}
+					}
+				}
+			}
+		}
 		if !silentDeadline {
 			sv.Conn.CloseInput()
 		}
